@@ -295,5 +295,11 @@ example : fnNUMBER [.num ⟨⟨false, [1], []⟩, {}⟩] [("minimumFractionDigit
     .num ⟨⟨false, [1], []⟩, { minimumFractionDigits := some 1 }⟩ := by decide
 example : effective [("type", .str (strBytes "ordinal")), ("type", .num ⟨⟨false, [1], []⟩, {}⟩)] "type" = some "ordinal" := by
   decide
+-- TEST: an explicit `type: "cardinal"` on a number that already is ordinal (handed over by the caller, or the result of an
+-- inner NUMBER call) makes it cardinal again - the call's option replaces the value's; English 2 is then `other`, not `two`
+example : fnNUMBER [.num ⟨⟨false, [2], []⟩, { type := .ordinal }⟩] [("type", .str (strBytes "cardinal"))] =
+    .num ⟨⟨false, [2], []⟩, { type := .cardinal }⟩ := by decide
+example : pluralCategory "en" ⟨⟨false, [2], []⟩, { type := .ordinal }⟩ = some .two ∧
+    pluralCategory "en" ⟨⟨false, [2], []⟩, { type := .cardinal }⟩ = some .other := by decide
 
 end FluentProofs.C12
